@@ -23,26 +23,9 @@ let hex s =
   if s = "" then "-" else
   String.concat "" (Stdlib.List.init (String.length s) (fun i -> Printf.sprintf "%02x" (Char.code s.[i])))
 
-(* ---- Go's strconv.Quote on ASCII input (the tie generates ASCII only) *)
-let quote_go_s s =
-  let b = Buffer.create 16 in
-  Buffer.add_char b '"';
-  String.iter (fun c ->
-    match c with
-    | '"' -> Buffer.add_string b "\\\""
-    | '\\' -> Buffer.add_string b "\\\\"
-    | '\007' -> Buffer.add_string b "\\a"
-    | '\b' -> Buffer.add_string b "\\b"
-    | '\012' -> Buffer.add_string b "\\f"
-    | '\n' -> Buffer.add_string b "\\n"
-    | '\r' -> Buffer.add_string b "\\r"
-    | '\t' -> Buffer.add_string b "\\t"
-    | '\011' -> Buffer.add_string b "\\v"
-    | c when Char.code c < 0x20 || Char.code c >= 0x7f -> Buffer.add_string b (Printf.sprintf "\\x%02x" (Char.code c))
-    | c -> Buffer.add_char b c) s;
-  Buffer.add_char b '"';
-  Buffer.contents b
-let quote_go l = bytes_of_string (quote_go_s (string_of_bytes l))
+(* ---- Go's strconv.Quote: the extracted Qual/Lexq.v strconvQuote (ASCII model), compared with
+   Go's %q on every pgident case *)
+let quote_go l = strconvQuote l
 
 (* ---- token stream *)
 let toks = ref [||]
@@ -176,7 +159,8 @@ let parse_sub () = match next () with
   | "MI" -> let a = parse_idx () in let b = parse_idx () in let pa = next_bool () in let cm = next_bool () in ModifyIndex (a, b, pa, cm)
   | "MF" -> let a = parse_fk () in let b = parse_fk () in ModifyForeignKey (a, b)
   | "APK" -> AddPrimaryKey | "DPK" -> DropPrimaryKey | "MPK" -> ModifyPrimaryKey
-  | "TC" -> TableComment
+  | "TC" -> TableComment false
+  | "TCA" -> TableComment true
   | s -> failwith ("sub " ^ s)
 let parse_change_s () = match next () with
   | "AT" -> AddTable (parse_tab ())
@@ -201,6 +185,35 @@ let do_skel id =
       (if ch = [] then "-" else String.concat "," ch)) (plan_chains pg q cs) in
   Stdlib.List.iter print_endline (Stdlib.List.sort compare lines)
 
+(* ---- the dialect's reader of a quoted identifier chain (Qual/Lexq.v lex_chain) *)
+let rec int_len = function [] -> 0 | _ :: r -> 1 + int_len r
+let do_lexq id =
+  let qo = n_of_int (next_int ()) in
+  let text = next_bytes () in
+  match lex_chain qo qo text with
+  | None -> Printf.printf "%s none\n" id
+  | Some (l, rest) ->
+    Printf.printf "%s chain=%s rest=%d\n" id
+      (String.concat "." (Stdlib.List.map (fun b -> hex (string_of_bytes b)) l)) (int_len rest)
+
+(* ---- Planner.plan, schema scope (Qual/Replay.v) *)
+let do_replay id =
+  let deep = next_bool () in
+  let q = next_opt () in
+  let mode = n_of_int (next_int ()) in
+  let dev = next_bytes () in
+  let user = next_bytes () in
+  let no = next_int () in let objs = times no next_bytes in
+  let tab () = let n = next_bytes () in let e = next_bool () in { rt_name = n; rt_enum = e } in
+  let nc = next_int () in let cur = times nc tab in
+  let nd = next_int () in let des = times nd tab in
+  let nm = next_int () in let mods = times nm next_bytes in
+  let modified t1 _ = Stdlib.List.mem t1.rt_name mods in
+  match planner_plan modified deep q mode dev user objs cur des with
+  | PNoPlan -> Printf.printf "%s noplan\n" id
+  | PPlanned -> Printf.printf "%s planned\n" id
+  | PRejected r -> Printf.printf "%s rejected:%s\n" id (show_scope r)
+
 let () =
   let mode = if Array.length Sys.argv > 1 then Sys.argv.(1) else "builder" in
   (try
@@ -215,6 +228,8 @@ let () =
         | "pgident" -> do_pgident id
         | "scope" -> do_scope id
         | "skel" -> do_skel id
+        | "lexq" -> do_lexq id
+        | "replay" -> do_replay id
         | m -> failwith ("mode " ^ m)
       end
     done
